@@ -1,3 +1,358 @@
-/- C06: property theorems (none yet). -/
+/-
+C06 — Traps, exits and host panics are contained and leave the runtime usable.
+
+Property theorems.  Three layers:
+  (1) decision logic regenerated from /repo (`Wz.Gen.ExitCodes`, `Wz.Gen.CallEngine`): exit-code table,
+      the dispatch switch of `callWithStack`, `FromRecovered`, the deferred functions → `error_kind_correct`,
+      `exitcode_roundtrip`;
+  (2) the reference semantics of calls with failure outcomes (`Wz.Model.Calls`, tied to both engines by the
+      history harness) → `effects_persist`, `failure_propagates_state`, `other_instances_untouched`,
+      `closed_instance_reports_exit`;
+  (3) the two call engines as state machines (`Wz.Model.CallEngine`, built on the regenerated definitions)
+      → `callengine_inv_preserved`, `next_call_independent_partial`, `growstack_terminates_below_ceiling`,
+      `interp_inv_preserved`, and the witness of finding F24 `stack_history_dependence_witness`.
+-/
+import Wz.Gen.CallEngine
+import Wz.Proofs.C06_CallEngine
+import Wz.Proofs.C06_Calls
+
 namespace Wz.C06
+open Wz.Gen.ExitCodes Wz.Model.CallEngine Wz.Model.Calls
+
+/-! ## (1) error kinds: decision logic over the regenerated tables -/
+
+/-- The documented runtime error per trap exit code (WebAssembly trap ↔ `wasmruntime` error). -/
+def documented : List (String × String) := [
+  ("ExitCodeUnreachable", "ErrRuntimeUnreachable"),
+  ("ExitCodeMemoryOutOfBounds", "ErrRuntimeOutOfBoundsMemoryAccess"),
+  ("ExitCodeTableOutOfBounds", "ErrRuntimeInvalidTableAccess"),
+  ("ExitCodeIndirectCallNullPointer", "ErrRuntimeInvalidTableAccess"),
+  ("ExitCodeIndirectCallTypeMismatch", "ErrRuntimeIndirectCallTypeMismatch"),
+  ("ExitCodeIntegerOverflow", "ErrRuntimeIntegerOverflow"),
+  ("ExitCodeIntegerDivisionByZero", "ErrRuntimeIntegerDivideByZero"),
+  ("ExitCodeInvalidConversionToInteger", "ErrRuntimeInvalidConversionToInteger"),
+  ("ExitCodeUnalignedAtomic", "ErrRuntimeUnalignedAtomic")]
+
+/-- The exit code the compiler emits for a trapping instruction of the reference semantics, and the
+error variable of its documented class. -/
+def trapExitCode : TrapKind → String
+  | .unreachable => "ExitCodeUnreachable"
+  | .divZero => "ExitCodeIntegerDivisionByZero"
+  | .divOverflow => "ExitCodeIntegerOverflow"
+  | .truncOverflow => "ExitCodeIntegerOverflow"
+  | .invalidConv => "ExitCodeInvalidConversionToInteger"
+  | .oobLoad => "ExitCodeMemoryOutOfBounds"
+  | .oobStore => "ExitCodeMemoryOutOfBounds"
+  | .oobTable => "ExitCodeTableOutOfBounds"
+  | .nullTable => "ExitCodeIndirectCallNullPointer"
+  | .sigMismatch => "ExitCodeIndirectCallTypeMismatch"
+
+def classErr : ErrClass → String × String
+  | .unreachable => ("ErrRuntimeUnreachable", "unreachable")
+  | .intDivZero => ("ErrRuntimeIntegerDivideByZero", "integer divide by zero")
+  | .intOverflow => ("ErrRuntimeIntegerOverflow", "integer overflow")
+  | .invalidConv => ("ErrRuntimeInvalidConversionToInteger", "invalid conversion to integer")
+  | .oobMemory => ("ErrRuntimeOutOfBoundsMemoryAccess", "out of bounds memory access")
+  | .invalidTable => ("ErrRuntimeInvalidTableAccess", "invalid table access")
+  | .typeMismatch => ("ErrRuntimeIndirectCallTypeMismatch", "indirect call type mismatch")
+  | .unalignedAtomic => ("ErrRuntimeUnalignedAtomic", "unaligned atomic")
+
+def isPanicErr : Action → Bool
+  | .panicErr _ => true
+  | _ => false
+
+def lookup (name : String) : Option Action := (dispatch.find? (fun p => p.1 == name)).map (·.2)
+
+/-- `error_kind_correct`: every failure kind maps to the documented error class.
+(a) each trap exit code panics with exactly the documented `wasmruntime` error, and no other exit
+code panics unconditionally with a runtime error; (b) every `ExitCode` constant has its own case
+(none reaches `default: panic("BUG")`), the constants are the distinct numbers `0 … exitCodeMax-1`
+and fit the 8-bit mask; (c) `ExitCodeOK` returns, `ExitCodeGrowStack` grows or returns the
+stack-overflow error, `ExitCodeCheckModuleExitCode` panics with the exit error of a closed module;
+(d) `FromRecovered` returns a `*sys.ExitError` unwrapped (exit code preserved at any nesting), wraps
+runtime errors and error values with `%w` (so `errors.Is/As` reach the trap error / the panic
+value) and formats any other panic value; (e) both deferred functions recover, report the exit
+error of a closed module when nothing else failed, and reset the call engine; (f) the error
+variables of all classes exist with the documented messages.  `decide` over finite regenerated tables. -/
+theorem error_kind_correct :
+    (∀ p ∈ documented, lookup p.1 = some (.panicErr p.2)) ∧
+    (∀ p ∈ dispatch, isPanicErr p.2 = true → p.1 ∈ documented.map (·.1)) ∧
+    (∀ p ∈ exitCodes, (lookup p.1).isSome) ∧
+    (exitCodes.map (·.2) = List.range exitCodeMax) ∧ exitCodeMax ≤ exitCodeMask + 1 ∧ exitCodeMask = 255 ∧
+    (exitCodes.map (·.1)).Nodup ∧ (dispatch.map (·.1)).Nodup ∧
+    lookup "ExitCodeOK" = some .ret ∧ lookup "ExitCodeGrowStack" = some .growStack ∧
+    lookup "ExitCodeCheckModuleExitCode" = some .checkExit ∧ dispatchDefault = .panicBug ∧
+    fromRecovered = [("*sys.ExitError", "asis"), ("*wasmruntime.Error", "wrap"), ("runtime.Error", "wrap"),
+      ("error", "wrap"), ("else", "format")] ∧
+    (deferWrapsRecovered && deferFailIfClosedUnlessOverflow && deferResetsExitCodeOnError && entryChecksAlignment
+      && interpRecoverTruncates && interpRecoverWrapsRecovered && interpDeferFailIfClosed && interpDeferRecovers) = true ∧
+    (∀ c ∈ [ErrClass.unreachable, .intDivZero, .intOverflow, .invalidConv, .oobMemory, .invalidTable,
+        .typeMismatch, .unalignedAtomic], classErr c ∈ runtimeErrors) ∧
+    ("ErrRuntimeStackOverflow", "stack overflow") ∈ runtimeErrors := by
+  decide
+
+/-- Each trapping instruction of the reference semantics reaches the error of its documented class. -/
+theorem trap_kind_correct (k : TrapKind) : lookup (trapExitCode k) = some (.panicErr (classErr k.cls).1) := by
+  cases k <;> decide
+
+/-- The Go-function index survives the packing into an exit code, and the low byte is the kind
+(all indices below 2^24; `ExitCodeMask = 0xff`). About the regenerated definitions. -/
+theorem exitcode_roundtrip (i : BitVec 64) (l : Bool) (h : i.toNat < 2 ^ 24) :
+    Wz.Gen.CallEngine.GoFunctionIndexFromExitCode (Wz.Gen.CallEngine.ExitCodeCallGoFunctionWithIndex i l) = i ∧
+    Wz.Gen.CallEngine.GoFunctionIndexFromExitCode (Wz.Gen.CallEngine.ExitCodeCallGoModuleFunctionWithIndex i l) = i := by
+  unfold Wz.Gen.CallEngine.GoFunctionIndexFromExitCode Wz.Gen.CallEngine.ExitCodeCallGoFunctionWithIndex
+    Wz.Gen.CallEngine.ExitCodeCallGoModuleFunctionWithIndex
+  cases l <;> simp only [Bool.false_eq_true, if_false, if_true] <;> constructor <;>
+    (apply BitVec.eq_of_toNat_eq
+     simp only [BitVec.toNat_setWidth, BitVec.toNat_ushiftRight, BitVec.toNat_or, BitVec.toNat_shiftLeft,
+       BitVec.toNat_ofNat, Nat.shiftRight_eq_div_pow, Nat.shiftLeft_eq]
+     have e1 : i.toNat * 2 ^ 8 % 2 ^ 64 % 2 ^ 32 = i.toNat * 256 := by omega
+     rw [e1]
+     first
+       | (have e2 : (17 % 2 ^ 32 ||| i.toNat * 256) = i.toNat * 256 + 17 := by
+            rw [Nat.mul_comm, show (256 : Nat) = 2 ^ 8 from rfl, Nat.or_comm]; exact (Nat.two_pow_add_eq_or_of_lt (by omega) _).symm
+          rw [e2]; omega)
+       | (have e2 : (6 % 2 ^ 32 ||| i.toNat * 256) = i.toNat * 256 + 6 := by
+            rw [Nat.mul_comm, show (256 : Nat) = 2 ^ 8 from rfl, Nat.or_comm]; exact (Nat.two_pow_add_eq_or_of_lt (by omega) _).symm
+          rw [e2]; omega)
+       | (have e2 : (16 % 2 ^ 32 ||| i.toNat * 256) = i.toNat * 256 + 16 := by
+            rw [Nat.mul_comm, show (256 : Nat) = 2 ^ 8 from rfl, Nat.or_comm]; exact (Nat.two_pow_add_eq_or_of_lt (by omega) _).symm
+          rw [e2]; omega)
+       | (have e2 : (5 % 2 ^ 32 ||| i.toNat * 256) = i.toNat * 256 + 5 := by
+            rw [Nat.mul_comm, show (256 : Nat) = 2 ^ 8 from rfl, Nat.or_comm]; exact (Nat.two_pow_add_eq_or_of_lt (by omega) _).symm
+          rw [e2]; omega))
+
+/-! ## (2) reference semantics: effects persist, other instances untouched -/
+
+/-- `effects_persist`: when a trapping instruction is reached, the call fails with the trap's class and
+the state is EXACTLY the state the instructions before it produced (nothing is rolled back); if an
+earlier instruction already failed, that failure and its state stand.  For every body, every callee
+behaviour, every state. -/
+theorem effects_persist (doCall : Nat → Nat → Nat → State → R) (doHost : HostFn → Nat → State → R)
+    (inst x : Nat) (pre post : List Instr) (g : Guard) (k : TrapKind) (acc : Nat) (σ : State)
+    (hg : g.holds x = true) :
+    execBody doCall doHost inst x (pre ++ (g, .trap k) :: post) acc σ =
+      match execBody doCall doHost inst x pre acc σ with
+      | (.ok _, σ') => (.error (.trap k.cls), σ')
+      | (.error e, σ') => (.error e, σ') := by
+  rw [Calls.execBody_append]
+  rcases execBody doCall doHost inst x pre acc σ with ⟨r, s⟩
+  cases r with
+  | error e => rfl
+  | ok v => simp only [execBody, hg, if_true]
+
+/-- A failing callee (guest function of any instance, or host function: panic, exit, failing re-entrant
+call) fails the caller with the same failure and the callee's final state: unwinding changes nothing. -/
+theorem failure_propagates_state (doCall : Nat → Nat → Nat → State → R) (doHost : HostFn → Nat → State → R)
+    (inst x j f : Nat) (a : ArgE) (g : Guard) (rest : List Instr) (acc : Nat) (σ σ' : State) (e : Failure)
+    (hg : g.holds x = true) (hc : doCall j f (evalArg a x) σ = (.error e, σ')) :
+    execBody doCall doHost inst x ((g, .call j f a) :: rest) acc σ = (.error e, σ') := by
+  simp only [execBody, hg, if_true, hc]
+
+/-- `other_instances_untouched`: a call into instance `i` leaves every instance `j ≠ i` that nothing
+outside `j` calls into exactly as it was — whatever the outcome (result, trap, overflow, panic, exit). -/
+theorem other_instances_untouched (W : World) (D fuel i f arg j : Nat) (σ : State)
+    (hiso : Calls.Isolated W j) (hne : i ≠ j) :
+    (apiCall W D fuel i f arg σ).2[j]? = σ[j]? := by
+  unfold apiCall
+  rw [Calls.closedCheck_snd]
+  exact Calls.callFn_untouched W D j hiso fuel 0 i f arg σ hne
+
+/-- non-vacuity: a world where instance 1 is isolated while instance 0 traps after an effect. -/
+example : Calls.Isolated [[[(.always, .setg 0 5), (.always, .trap .divZero)]], [[(.always, .addg 0)]]] 1 := by
+  intro i f body hne hb ins hm
+  match i, f with
+  | 0, 0 => simp [World.getFunc] at hb; subst hb; simp at hm; rcases hm with h | h <;> subst h <;> simp [Calls.target]
+  | 0, f + 1 => simp [World.getFunc] at hb
+  | 1, _ => exact absurd rfl hne
+  | i + 2, _ => simp [World.getFunc] at hb
+
+/-- (test, one sample) the effect before the trap is there after the failing call. -/
+example : apiCall [[[(.always, .setg 0 5), (.always, .trap .divZero)]]] 2000 10 0 0 7 [{}] =
+    (.error (.trap .intDivZero), [{ globals := [5, 0] }]) := by rfl
+
+/-- A call through the API that returns a result left the called instance open; if the instance is
+closed when the call ends without another failure, the caller gets the exit error with its code. -/
+theorem closed_instance_reports_exit (W : World) (D fuel i f arg : Nat) (σ : State) :
+    (∀ v, (apiCall W D fuel i f arg σ).1 = .ok v → (apiCall W D fuel i f arg σ).2.closedOf i = none) ∧
+    (∀ v c, (callFn W D fuel 0 i f arg σ).1 = .ok v → (callFn W D fuel 0 i f arg σ).2.closedOf i = some c →
+      (apiCall W D fuel i f arg σ).1 = .error (.exit c)) := by
+  unfold apiCall
+  rcases callFn W D fuel 0 i f arg σ with ⟨r, s⟩
+  cases r with
+  | error e => simp [closedCheck]
+  | ok v =>
+    simp only [closedCheck]
+    cases h : s.closedOf i with
+    | none => simp [h]
+    | some c => simp
+
+/-- Finding F25 (witness): the call-depth ceiling `D` is per API call; a guest function that calls a
+re-entrant host function which calls the same guest function again restarts at depth 0 every time.
+In the reference semantics this recursion is stopped by NOTHING but the model's fuel, for every fuel
+and every ceiling: the stack-overflow error is never produced.  On the real engines the Go stack
+limit ends the process (reproduced by the harness in a child process). -/
+theorem reentrant_recursion_unbounded_witness (D fuel arg : Nat) (σ : State) (hD : 2 ≤ D) :
+    callFn [[[(.always, .host (.reenter 0 0 false) .x)]]] D fuel 0 0 0 arg σ = (.error .outOfFuel, σ) := by
+  induction fuel with
+  | zero => rfl
+  | succ n ih =>
+    have h1 : ¬ D ≤ 0 := by omega
+    have h2 : ¬ D ≤ 0 + 1 := by omega
+    simp only [callFn, h1, h2, if_false, World.getFunc, List.getElem?_cons_zero, execBody, Guard.holds, if_true,
+      evalArg, hostStep, ih, closedCheck, Bool.false_eq_true]
+
+/-! ## (3) the call engines as state machines -/
+
+open Wz.C06.CE
+
+/-- `growstack_terminates_below_ceiling`, for EVERY starting length and EVERY frame size (as the code
+is): each `growStack()` strictly lengthens the stack; no stack ever exceeds `2·ceiling + required + 16`;
+and unbounded recursion ends — within the fuel of the model, from every state satisfying the stack
+invariant — in `ErrRuntimeStackOverflow`, never anything else. -/
+theorem growstack_terminates_below_ceiling (len req : Nat) :
+    (∀ n, growLen false len req = some n → len < n ∧ n ≤ 2 * callStackCeiling + req + 16) ∧
+    (callStackCeiling < len → growLen false len req = none) ∧
+    (∀ alloc ce, J ce → ∃ ce', satisfy false alloc growFuel ce none req = .error (.overflow, ce')) ∧
+    (∀ alloc ce bytes, J ce →
+      (∃ ce', satisfy false alloc growFuel ce bytes req = .ok ce') ∨
+        (∃ ce', satisfy false alloc growFuel ce bytes req = .error (.overflow, ce'))) := by
+  refine ⟨fun n h => ⟨growLen_increases _ _ _ _ h, growLen_le _ _ _ h⟩, ?_, ?_, ?_⟩
+  · intro h; rw [growLen_asis, if_pos h]
+  · intro alloc ce hJ
+    obtain ⟨c, h, _⟩ := satisfy_unbounded alloc ce req hJ
+    exact ⟨c, h⟩
+  · intro alloc ce bytes hJ
+    rcases satisfy_total alloc ce bytes req hJ with ⟨ce', h, _⟩ | ⟨ce', h, _⟩
+    · exact Or.inl ⟨ce', h⟩
+    · exact Or.inr ⟨ce', h⟩
+
+theorem inv_J (ce : CE) (h : Inv ce) : J ce := by
+  unfold Wz.Model.CallEngine.Inv at h; unfold J; omega
+
+/-- A new function object satisfies the invariant (for every allocator and function type). -/
+theorem fresh_inv (alloc : Nat → Nat) (n : Nat) : Wz.Model.CallEngine.Inv (CE.fresh alloc n) := by
+  have hl : 10240 ≤ requiredInitialStackSize n := by
+    unfold requiredInitialStackSize initialStackSizeDefault
+    simp only
+    split <;> omega
+  unfold Wz.Model.CallEngine.Inv CE.fresh alignedStackTop
+  generalize requiredInitialStackSize n = l at hl
+  refine ⟨rfl, ?_, ?_, ?_, ?_, ?_, ?_⟩ <;> simp only <;> omega
+
+/-- `callengine_inv_preserved`: `Inv` (exit code OK ∧ stack top 16-byte aligned, inside the stack and
+within 16 bytes of its end ∧ stack at least the required initial size) holds after EVERY outcome of
+EVERY call: for all native behaviours (any sequence of exits with any codes, stack demands, host
+functions that return, panic with any value, close the module), all allocators, closed or open module. -/
+theorem callengine_inv_preserved (alloc : Nat → Nat) (ce : CE) (closed : Option Nat) (evs : List Ev)
+    (hinv : Inv ce) (hn : NonOK evs) : Inv (call false alloc ce closed evs).ce := by
+  have hJ := inv_J ce hinv
+  have h0 : ce.exitCode = 0 := hinv.1
+  have hal : (entryChecksAlignment && ce.top % 16 != 0) = false := by
+    have := hinv.2.1
+    simp [this]
+  unfold call
+  rw [hal]
+  simp only [Bool.false_eq_true, if_false]
+  obtain ⟨hJ', hret, hex⟩ := loop_spec alloc evs ce closed hJ h0 hn
+  generalize loop false alloc evs ce closed = r at hJ' hret hex
+  have hreset : deferResetsExitCodeOnError = true := rfl
+  have hwrap : deferWrapsRecovered = true := rfl
+  have hfc : deferFailIfClosedUnlessOverflow = true := rfl
+  unfold J at hJ'
+  cases hr : r.recovered with
+  | some e =>
+    simp only [deferred, hr, hreset, hwrap, hfc, if_true, Option.isSome_some, Bool.and_true]
+    exact ⟨rfl, hJ'⟩
+  | none =>
+    rcases hret with h | h
+    · cases hc : r.closed with
+      | none =>
+        have := hex hr h
+        simp only [deferred, hr, h, hc, hreset, hwrap, hfc]
+        exact ⟨this, hJ'⟩
+      | some c =>
+        simp only [deferred, hr, h, hc, hreset, hwrap, hfc]
+        exact ⟨rfl, hJ'⟩
+    · simp only [deferred, hr, h, hreset, hwrap, hfc]
+      exact ⟨rfl, hJ'⟩
+
+/-- non-vacuity: a fresh engine meets `Inv`, and an event list with traps, host panics and stack
+demands meets `NonOK`. -/
+example : Inv (CE.fresh (fun _ => 4096) 3) ∧
+    NonOK [.need (some 100000) 64, .exit 6 {}, .exit 0x105 { panics := some (.str 1) }, .exit 3 {}] := by
+  refine ⟨fresh_inv _ _, ?_⟩
+  intro code host hm
+  simp at hm
+  rcases hm with ⟨h, _⟩ | ⟨h, _⟩ | ⟨h, _⟩ <;> subst h <;> decide
+
+/-- `next_call_independent_partial`.  Full statement wanted: `Inv ce → call ce σ evs = call fresh σ evs`
+(the result of a call depends on the instance state only).  Proved: for any two engines satisfying
+`Inv` (in particular a used one and a fresh one) the error returned and the module's closed state
+agree, for every native behaviour whose BOUNDED stack demands fit below the ceiling (unbounded
+recursion allowed: it overflows on both).  Missing — and false for the code as it is, see
+`stack_history_dependence_witness` (finding F24): demands between the ceiling and twice the ceiling. -/
+theorem next_call_independent_partial (a₁ a₂ : Nat → Nat) (ce₁ ce₂ : CE) (closed : Option Nat) (evs : List Ev)
+    (h₁ : Inv ce₁) (h₂ : Inv ce₂) (hn : NonOK evs) (hg : NoRawGrow evs) (hs : Small evs) :
+    (call false a₁ ce₁ closed evs).err = (call false a₂ ce₂ closed evs).err ∧
+    (call false a₁ ce₁ closed evs).closed = (call false a₂ ce₂ closed evs).closed := by
+  have e₁ : (entryChecksAlignment && ce₁.top % 16 != 0) = false := by have := h₁.2.1; simp [this]
+  have e₂ : (entryChecksAlignment && ce₂.top % 16 != 0) = false := by have := h₂.2.1; simp [this]
+  have ho := loop_indep a₁ a₂ evs ce₁ ce₂ closed (inv_J _ h₁) (inv_J _ h₂) h₁.1 h₂.1 hn hg hs
+  unfold call
+  rw [e₁, e₂]
+  simp only [Bool.false_eq_true, if_false]
+  generalize loop false a₁ evs ce₁ closed = r₁ at ho
+  generalize loop false a₂ evs ce₂ closed = r₂ at ho
+  unfold obs at ho
+  simp only [Prod.mk.injEq] at ho
+  unfold deferred
+  simp only [ho.1, ho.2.1, ho.2.2, and_self]
+
+/-- non-vacuity for the hypotheses of `next_call_independent_partial`. -/
+example : NoRawGrow [.need (some 100000) 64, .exit 6 {}, .need none 1696] ∧
+    Small [.need (some 100000) 64, .exit 6 {}, .need none 1696] := by
+  constructor
+  · intro code host hm; simp at hm; rcases hm with ⟨h, _⟩; subst h; decide
+  · intro b req hm; simp at hm; rcases hm with ⟨h, _⟩; subst h; decide
+
+/-- Finding F24 (witness; frame sizes and depths as reproduced on the real compiler by the harness):
+a function object whose previous call overflowed with 48-byte frames keeps an 84 410 304-byte stack;
+a following call that needs 89 888 000 bytes with 1696-byte frames overflows on it, while the same
+call on a fresh function object (whose doubling sequence reaches 97 909 072 bytes) succeeds.
+So `∀ ce, Inv ce → call ce = call fresh` is FALSE for the code as it is. -/
+theorem stack_history_dependence_witness :
+    let a : Nat → Nat := fun _ => 65536
+    let fresh := CE.fresh a 2
+    let used := (call false a fresh none [.need none 48]).ce
+    Inv fresh ∧ Inv used ∧ used.len = 84410304 ∧
+    (call false a fresh none [.need none 48]).err = some .overflow ∧
+    (call false a used none [.need (some 89888000) 1696]).err = some .overflow ∧
+    (call false a fresh none [.need (some 89888000) 1696]).err = none ∧
+    (call false a fresh none [.need (some 89888000) 1696]).ce.len = 97909072 := by
+  decide
+
+/-- `interp_inv_preserved`: after a call of the interpreter's call engine that panicked — trap, stack
+overflow at any depth, host panic, exit — there are no frames and no values left (`recoverOnCall`),
+whatever was on the stacks; after a call that returned, the same holds when pushes and pops were
+balanced (guaranteed by validation; assumed here). -/
+theorem interp_inv_preserved (ceiling : Nat) (ce : ICE) (closed : Option Nat) (evs : List IEv) :
+    ((irun ceiling evs ce).1 ≠ none → IInv (icall ceiling ce closed evs).2) ∧
+    ((irun ceiling evs ce).1 ≠ none → (icall ceiling ce closed evs).1 = (irun ceiling evs ce).1) := by
+  unfold icall
+  rcases irun ceiling evs ce with ⟨r, ce'⟩
+  cases r with
+  | none => simp
+  | some e =>
+    have h1 : interpDeferRecovers = true := rfl
+    have h2 : interpRecoverTruncates = true := rfl
+    simp [h1, h2, IInv]
+
+/-- The interpreter's frame ceiling: the push that would make the `ceiling+1`-th frame panics with
+stack overflow, every earlier one succeeds (regenerated test `callStackCeiling <= len(ce.frames)`). -/
+theorem interp_ceiling_exact (frames : Nat) :
+    interpPushOverflows interpCallStackCeiling frames = true ↔ 2000 ≤ frames := by
+  unfold interpPushOverflows interpCallStackCeiling
+  exact decide_eq_true_iff
+
 end Wz.C06
